@@ -46,15 +46,16 @@ Section Trace.
     | Yield x _ => Some ("S(" ++ show_item x ++ ")")
     end.
 
-  Definition push (a b c : string) (r : option (list string * list string * list string)) :=
+  Definition push (a b c : string) (r : option (list string * list string * list string * iter C)) :=
     match r with
     | None => None
-    | Some (x, y, z) => Some (a :: x, b :: y, c :: z)
+    | Some (x, y, z, f) => Some (a :: x, b :: y, c :: z, f)
     end.
 
-  Fixpoint trace (h : list end_) (it : iter C) : option (list string * list string * list string) :=
+  (** also returns the iterator after the history *)
+  Fixpoint trace (h : list end_) (it : iter C) : option (list string * list string * list string * iter C) :=
     match h with
-    | [] => Some ([], [], [])
+    | [] => Some ([], [], [], it)
     | e :: h' =>
         match show_step (it_step nb bb (flip_end e) (it_copy it)) with
         | None => None
@@ -67,16 +68,29 @@ Section Trace.
         end
     end.
 
-  Definition render (with_rem : bool) (h : list end_) (it : option (iter C)) : string :=
+  (** [copy().rev()] of a state, drained from its front *)
+  Fixpoint drain_front (fuel : nat) (it : iter C) : list string :=
+    match fuel with
+    | O => ["FUEL"]
+    | S f =>
+        match it_step nb bb Front it with
+        | Panic => ["PANIC"]
+        | Stop => []
+        | Yield x it' => show_item x :: drain_front f it'
+        end
+    end.
+
+  Definition render (fuel : nat) (with_rem : bool) (h : list end_) (it : option (iter C)) : string :=
     match it with
     | None => "PANIC"
     | Some it =>
         match trace h it with
         | None => "PANIC"
-        | Some (items, alts, rems) =>
+        | Some (items, alts, rems, fin) =>
             show_fields
               ([("items", show_list (fun s => s) items); ("alt", show_list (fun s => s) alts)] ++
-               (if with_rem then [("rem", show_list (fun s => s) (show_rem it :: rems))] else []))
+               (if with_rem then [("rem", show_list (fun s => s) (show_rem it :: rems))] else []) ++
+               [("rv", show_list (fun s => s) (drain_front fuel (it_rev (it_copy fin))))])
         end
     end.
 End Trace.
@@ -95,28 +109,29 @@ Definition no_rem {C} (_ : iter C) : string := "".
 
 Definition c08_kind (kind : string) (zst : bool) (len size : Z) (h : list end_) : option string :=
   let sv := show_v zst in
+  let fuel := S (S (Z.to_nat len)) in
   let go_iter rv :=
-    render iter_next iter_next_back (show_idx zst) (fun it => sv (iter_as_slice (core it))) true h
+    render iter_next iter_next_back (show_idx zst) (fun it => sv (iter_as_slice (core it))) fuel true h
       (orient rv (Some (iter_new len))) in
   let go_copied rv :=
-    render copied_next copied_next_back (show_idx zst) (fun it => sv (copied_as_slice (core it))) true h
+    render copied_next copied_next_back (show_idx zst) (fun it => sv (copied_as_slice (core it))) fuel true h
       (orient rv (Some (copied_new (ziota_glue len)))) in
   let go_windows rv :=
-    render windows_next windows_next_back sv no_rem false h (orient rv (windows_new len size)) in
+    render windows_next windows_next_back sv no_rem fuel false h (orient rv (windows_new len size)) in
   let go_chunks rv :=
-    render chunks_next chunks_next_back sv no_rem false h (orient rv (chunks_new len size)) in
+    render chunks_next chunks_next_back sv no_rem fuel false h (orient rv (chunks_new len size)) in
   let go_rchunks rv :=
-    render rchunks_next rchunks_next_back sv no_rem false h (orient rv (rchunks_new len size)) in
+    render rchunks_next rchunks_next_back sv no_rem fuel false h (orient rv (rchunks_new len size)) in
   let go_cexact rv :=
-    render chunks_exact_next chunks_exact_next_back sv (fun it => sv (exact_remainder (core it))) true h
+    render chunks_exact_next chunks_exact_next_back sv (fun it => sv (exact_remainder (core it))) fuel true h
       (orient rv (chunks_exact_new len size)) in
   let go_rcexact rv :=
-    render rchunks_exact_next rchunks_exact_next_back sv (fun it => sv (exact_remainder (core it))) true h
+    render rchunks_exact_next rchunks_exact_next_back sv (fun it => sv (exact_remainder (core it))) fuel true h
       (orient rv (rchunks_exact_new len size)) in
   (* ArrayChunksRev has no remainder() *)
   let go_ac rv :=
     render array_chunks_next array_chunks_next_back sv (fun it => sv (array_chunks_remainder (core it)))
-      (negb rv) h (orient rv (array_chunks_new len size)) in
+      fuel (negb rv) h (orient rv (array_chunks_new len size)) in
   if String.eqb kind "iter" then Some (go_iter false)
   else if String.eqb kind "iter_rev" then Some (go_iter true)
   else if String.eqb kind "iter_copied" then Some (go_copied false)
